@@ -115,8 +115,9 @@ def h_cascade(ctx, vendor="orca", shells=((0, "c"), (1, "c")), symbolic=True, th
         if kind == "restricted":
             mo = O.MolecularOrbitals("restricted", nb, nb, np.array([2.0] + [0.0] * (nb - 1)), cmat, np.arange(nb, dtype=float))
         else:
+            # beta orbitals differ from the alpha ones: the same functions in reverse order
             mo = O.MolecularOrbitals("unrestricted", nb, nb, np.array(([1.0] + [0.0] * (nb - 1)) * 2),
-                                     np.hstack([cmat, cmat]), np.arange(2 * nb, dtype=float))
+                                     np.hstack([cmat, cmat[:, ::-1]]), np.arange(2 * nb, dtype=float))
         result = {"obasis": ob, "atcoords": np.zeros((1, 3)), "mo": mo}
         lit = U.LineIterator("vendor.molden")
         with warnings.catch_warnings(record=True) as wl:
@@ -127,7 +128,7 @@ def h_cascade(ctx, vendor="orca", shells=((0, "c"), (1, "c")), symbolic=True, th
             except U.LoadError as e:
                 err = e
         msgs = [str(w.message) for w in wl if issubclass(w.category, U.LoadWarning)]
-        cls = f"{vendor},{'+'.join(f'{l}{k}' for l, k in shells)},thr={thr}"
+        cls = f"{vendor},{'+'.join(f'{l}{k}' for l, k in shells)},thr={thr},{kind}"
         want = EXPECT[vendor]
         if twin:
             want = "Turbomole"
@@ -150,10 +151,13 @@ def h_cascade(ctx, vendor="orca", shells=((0, "c"), (1, "c")), symbolic=True, th
         rob = result["obasis"]
         funcs = BF.basis_functions(BF.shells_of(rob), rob.conventions)
         tfuncs = BF.basis_functions(true_shells, M.CONVENTIONS)
-        co = result["mo"].coeffsa
-        for i in range(nb):
+        channels = [("alpha", result["mo"].coeffsa, list(range(nb)))]
+        if kind == "unrestricted":
+            channels.append(("beta", result["mo"].coeffsb, list(range(nb))[::-1]))
+        for spin, co, which in channels:
+          for i in range(nb):
             got = BF.combine(list(co[:, i]), funcs)
-            ref = tfuncs[i]
+            ref = tfuncs[which[i]]
             keys = set(got) | set(ref)
             parts = []
             for key in keys:
@@ -164,7 +168,7 @@ def h_cascade(ctx, vendor="orca", shells=((0, "c"), (1, "c")), symbolic=True, th
                     # |k^2 - 1| <= thr  with k = g / r  (r = +-1)
                     k2 = g * g
                     parts.append(And(k2 - 1.0 <= thr * 1.0000001, 1.0 - k2 <= thr * 1.0000001, g * r > 0))
-            ctx.oblige("loaded-orbital-is-the-true-orbital", And(*parts), cls=cls, detail=f"orbital {i}", timeout_ms=60000)
+            ctx.oblige("loaded-orbital-is-the-true-orbital", And(*parts), cls=cls, detail=f"{spin} orbital {i}", timeout_ms=60000)
 
 
 def jobs(tier):
@@ -184,7 +188,7 @@ def jobs(tier):
     for vendor, shells, symbolic in cases:
         thrs = (1e-4,) if (tier == "quick" or symbolic) else (1e-5, 1e-4, 1e-3)
         for thr in thrs:
-            for kind in ("restricted",) + (("unrestricted",) if not symbolic and vendor in ("orca", "cfour") else ()):
+            for kind in ("restricted",) + (("unrestricted",) if not symbolic and vendor != "corrupt" else ()):
                 name = f"cascade[{vendor},{'+'.join(f'{l}{k}' for l, k in shells)},{'sym' if symbolic else 'grid'},thr={thr},{kind}]"
                 out.append(job("C05", name, Mn, "h_cascade",
                                dict(vendor=vendor, shells=[list(s) for s in shells], symbolic=symbolic, thr=thr, kind=kind),
